@@ -4,7 +4,7 @@
    The two denotations are computed independently (Design!Denote from the source, Package!PkgDenote from
    the package as the netlisters read it) and must agree: same leaf devices, same partition of
    leaf-terminal bits and top-level port bits into nets. *)
-EXTENDS Valid, Package, Json, IOUtils
+EXTENDS Valid, Netlist, Json, IOUtils
 T_ == ndJsonDeserialize(IOEnv.TRACE_FILE)
 VARIABLE l
 
@@ -15,6 +15,9 @@ Denotes(e) ==
   IF PLeafTable(e.P, e.P.top, <<>>) # LeafTable(e.D, e.D.top, <<>>) THEN "leaf_table"
   ELSE IF PObservables(e.P) # Observables(e.D) THEN "observables"
   ELSE IF PkgDenote(e.P) # Denote(e.D) THEN "partition"
+  \* where the driver also netlisted the package: the SPICE text, read by position, must describe the same circuit (this checks on real
+  \* netlists the reading convention PkgDenote assumes, and C01's "and therefore every netlist")
+  ELSE IF "N" \in DOMAIN e THEN NetlistDiff(e.N, e.P)
   ELSE ""
 
 Clause(e) ==
